@@ -16,6 +16,7 @@ the model is run with exactly that order (`follow`), so both sides execute the s
 (events and the `# T<k> call/ret/leave` annotations of the harness); it never consults the model.
 
 Oracle kinds (C04): wrong-thread, order, exec-context, inline-first, lost-wakeup, task-dropped, drain-on-exit
+                    (loop() returned although a functor appended before its last test of the queue never ran)
 Oracle kinds (C05): quit-ignored, quit-lost, loop-returned-without-quit, uaf-dtor, uaf, startloop (wrong pointer,
                     NULL for a live loop), startloop-hang (also: waiting for a loop that is already gone),
                     join, join-hang, deadlock
@@ -359,7 +360,7 @@ def oracle(prog, lines):
         elif what == "point loop:afterPoll":
             phase = "dispatch"
         elif what == "point doPendingFunctors:beforeSwap":
-            phase = "finalpreswap" if phase in ("exiting",) else "preswap"
+            phase = "finalpreswap" if phase in ("exiting", "finaldraining") else "preswap"
         elif what == "point doPendingFunctors:afterSwap":
             taken = len(appended)
             phase = "finaldraining" if phase == "finalpreswap" else "draining"
@@ -377,9 +378,13 @@ def oracle(prog, lines):
         elif what in ("returned", "point threadFunc:loopReturned"):
             if drained != taken:
                 fail("task-dropped", "loop() returned with %d functor(s) taken out of the queue but not run" % (taken - drained))
-            elif quit_mark is not None and drained < quit_mark:
-                fail("drain-on-exit", "loop() returned although task %d (queued by T%d before the first quit() call) never ran"
-                     % appended[drained])
+            elif drained < len(appended):
+                # the test of the queue that lets loop() return and this line are one step of the loop thread: whatever
+                # was appended before has been seen by that test
+                fail("drain-on-exit", "loop() returned although task %d (queued by T%d %s) never ran"
+                     % (appended[drained][0], appended[drained][1],
+                        "before the first quit() call" if quit_mark is not None and drained < quit_mark
+                        else "before loop() returned" + (", from a functor of the final drain" if appended[drained][1] == L else "")))
             phase = "returned"
             returned = True
         elif what == "destroyed":
@@ -573,6 +578,15 @@ def sweeps():
             p.threads[2] = ["quit"]
             p.follow = [0] * i + [1] * 8 + [0] * 40 + [2] * 4 + [0] * 40
             out.append(("sweep-submit", p))
+    # a functor run by the drain after the `while` queues another one (and that one a third): quit placed at every step
+    for body in (["quit"], ["q1", "quit"]):
+        for i in range(0, 14):
+            p = Prog()
+            p.tasks = {1: ["q2"], 2: ["q3", "r4"], 3: [], 4: []}
+            p.pre = ["q1"]
+            p.threads[1] = list(body)
+            p.follow = [0] * i + [1] * 8 + [0] * 80
+            out.append(("sweep-final-drain", p))
     # ~EventLoopThread at every point of the new thread's progress (with and without an init callback that queues)
     for pre in ([], ["q1"]):
         for i in range(0, 20):
@@ -685,7 +699,7 @@ def contexts(prog, impl):
             if what in m:
                 phase = m[what]
             elif what == "point doPendingFunctors:beforeSwap":
-                phase = "finalpreswap" if phase == "exiting" else "preswap"
+                phase = "finalpreswap" if phase in ("exiting", "finaldraining") else "preswap"
             elif what == "point doPendingFunctors:afterSwap":
                 phase = "finaldraining" if phase == "finalpreswap" else "draining"
     return seen
@@ -972,6 +986,8 @@ def exhaustive_programs(which):
         out.append(("nested-io", prog("plain", {1: ["q3"], 2: ["q4"], 3: [], 4: []}, ["q1"], {1: ["r3", "p2"]}), 2))
         # submission racing with quit: the final drain
         out.append(("queue-vs-quit", prog("plain", {1: [], 2: []}, ["q1"], {1: ["q2", "quit"]}), 3))
+        # the final drain runs functors that queue again, a foreign thread queues while the loop is leaving
+        out.append(("final-drain-requeue", prog("plain", {1: ["q2"], 2: ["q3"], 3: []}, ["q1"], {1: ["quit", "q3"]}), 3))
     else:
         out.append(("quit-vs-loop-entry", prog("plain", {1: []}, ["q1"], {1: ["quit"]}), 3))
         out.append(("two-quitters", prog("plain", {1: ["quit"]}, [], {1: ["quit"], 2: ["q1"]}), 2))
